@@ -1,6 +1,5 @@
 import CfdpVerif.Model.Dest
-import Std.Do
-import Std.Tactic.Do
+import CfdpVerif.Lemmas.StdDo
 /-!
 C10, destination handler: **no internal error, from every reachable state, for every PDU**.
 
@@ -15,21 +14,6 @@ open Std.Do
 set_option mvcgen.warning false
 set_option linter.unusedSimpArgs false
 set_option linter.unusedVariables false
-
-/-- a Hoare triple of `Std.Do` about an `EStateM` program, read back as a statement about the
-result of running the program -/
-theorem Cfdp.triple_elim {ε σ α : Type} (x : EStateM ε σ α) (P : σ → Prop) (Q : α → σ → Prop)
-    (E : ε → σ → Prop)
-    (h : ⦃fun s => ⌜P s⌝⦄ x ⦃post⟨fun a s => ⌜Q a s⌝, fun e s => ⌜E e s⌝⟩⦄) (s : σ) (hp : P s) :
-    match x s with
-    | .ok a s' => Q a s'
-    | .error e s' => E e s' := by
-  have := h s
-  simp only [SPred.entails] at this
-  have h2 := this hp
-  simp [wp, PredTrans.apply] at h2
-  unfold EStateM.run at h2
-  cases hx : x s <;> simp [hx] at h2 ⊢ <;> exact h2
 
 namespace Cfdp
 
